@@ -677,20 +677,21 @@ class Session:
     @staticmethod
     def refs_text(data):
         try:
-            return '[' + ','.join(o.hex() for o in referencesf(data)) + ']'
+            return '[' + ','.join(o.hex() if isinstance(o, bytes) else repr(o) for o in referencesf(data)) + ']'
         except UnicodeError:
             return 'err:Unicode'
 
     @staticmethod
     def getrefs_text(data):
         try:
-            return '[' + ','.join(o.hex() for o, _ in decode_getrefs(data)) + ']'
+            return '[' + ','.join(o.hex() if isinstance(o, bytes) else repr(o) for o, _ in decode_getrefs(data)) + ']'
         except UnicodeError:
             return 'err:Unicode'
 
     # -- loading ----------------------------------------------------------------------------
     def real_walk(self, home_conn, keys):
         out, seen, registry = [], set(), {}
+        self.args_seen = {}
         dup = [0]
         todo = list(keys)
 
@@ -700,7 +701,17 @@ class Session:
         def leaf(x):
             if isinstance(x, WeakRef):
                 d = getattr(x, 'database_name', None)
+                if not isinstance(x.oid, bytes):
+                    self.violation('C14:ascii-oid', 'a loaded weak reference carries the oid %r' % (x.oid,))
+                    return ['r?:' + x.oid.encode('latin-1').hex()]
                 return ['r%s:%s' % ('-' if d is None else dbidx(d), x.oid.hex())]
+            if x._p_jar is None or x._p_oid is None:
+                self.violation('C14:identity', 'a reference loads as an object (oid %r) that is not the '
+                               'connection\'s object for that oid: it has no jar' % (x._p_oid,))
+                return ['o?:?']
+            if not isinstance(x._p_oid, bytes):
+                self.violation('C14:ascii-oid', 'a reference loads as an object whose oid is %r' % (x._p_oid,))
+                return ['o?:' + x._p_oid.encode('latin-1').hex()]
             k = (dbidx(x._p_jar.db().database_name), x._p_oid)
             if registry.setdefault(k, x) is not x:
                 dup[0] += 1
@@ -731,6 +742,12 @@ class Session:
             toks = tr_value(st, leaf, {})
             out.append('%s=%d/%d/%s' % (key, clsid(type(obj)), int(isinstance(obj, ZODB.broken.Broken)),
                                        ' '.join(toks)))
+            if isinstance(obj, (NodeNA, GoneNA)) and obj in c14_classes.NEW_ARGS:
+                def aleaf(x):
+                    if isinstance(x, WeakRef):
+                        return ['r?']
+                    return ['o%d:%s' % (dbidx(x._p_jar.db().database_name), x._p_oid.hex())]
+                self.args_seen[k] = tr_value(c14_classes.NEW_ARGS[obj], aleaf, {})
         for k, obj in registry.items():
             if conn_of(k[0]).get(k[1]) is not obj or obj._p_oid != k[1]:
                 dup[0] += 1
@@ -744,9 +761,9 @@ class Session:
         if variant == 'pool':
             c = self.dbs[0].open(transaction_manager=self.ltm)
             try:
-                res = [self.real_walk(c, keys)]
+                res = [self.real_walk(c, keys) + (None,)]
                 c.cacheMinimize()
-                res.append(self.real_walk(c, keys))
+                res.append(self.real_walk(c, keys) + (None,))
             finally:
                 self.ltm.abort()
                 c.close()
@@ -756,17 +773,17 @@ class Session:
                 if missing:
                     c14_classes.hide_gone()
                 c = dbs[0].open(transaction_manager=transaction.TransactionManager())
-                res = [self.real_walk(c, keys)]
+                res = [self.real_walk(c, keys) + (None if missing else self.args_seen,)]
                 c.transaction_manager.abort()
                 c.close()
             finally:
                 c14_classes.show_gone()
                 for db in dbs:
                     db.close()
-        for dup, out in res:
+        for dup, out, args_seen in res:
             self.emit(lenv, 'ok')
             self.emit('lwalk ' + ktxt, canon_walk('dup=%d | %s' % (dup, ' | '.join(out))))
-            Oracle(self).loaded(dup, out, variant, missing)
+            Oracle(self).loaded(dup, out, variant, missing, args_seen)
 
     def fresh_dbs(self, patched=None):
         """new DBs on copies of the storages; `patched` replaces the current record of some oids"""
@@ -796,7 +813,7 @@ class Session:
         keys = sorted(set(self.expect) | {(i, Z64) for i in range(self.ndb)})
         allrecs = {(i, oid): data for i, st in enumerate(self.storages)
                    for oid, data in self._all_records(st).items()}
-        if any(c in GONE_IDS for c, _ in self.expect.values()):
+        if any(v[0] in GONE_IDS for v in self.expect.values()):
             # classes gone: placeholders keep the state; reference extraction needs no class
             self.load_phase(keys, 'fresh-missing', missing=True)
             c14_classes.hide_gone()
@@ -928,8 +945,10 @@ class Oracle:
         if want != got or any(snap.post_oid[h] is None for h in stored):
             missing = [(snap.db, o) for o in want if o not in got]
             self.s.violation(self.sig('C14:stored-set', missing if not [o for o in got if o not in want] else []),
-                             'commit stored oids %s; reachable-or-added new objects and changed objects are %s'
-                             % ([o.hex() for o in got], [o.hex() for o in want]))
+                             'commit stored oids %s; reachable-or-added new objects and changed objects are %s%s'
+                             % ([o.hex() for o in got], [o.hex() for o in want],
+                                ''.join('; object %d (%s) is reachable and new but got no oid' % (
+                                    h, type(snap.objs[h]).__name__) for h in stored if snap.post_oid[h] is None)))
         # every object referred to by a stored record must exist in its database afterwards
         # (checked when loading: a reference leads to the object with the same id)
 
@@ -992,7 +1011,12 @@ class Oracle:
                             s.edges.setdefault((snap.db, snap.post_oid[h]), set()).add(k)
                     else:
                         toks.append(t)
-                s.expect[(snap.db, snap.post_oid[h])] = (snap.cls[h], toks)
+                wargs = None
+                if snap.args[h] is not None:
+                    wargs = [('o%d:%s' % (s.connid.get(id(snap.post_jar[int(t[1:])]), (9, 99))[0],
+                                          snap.post_oid[int(t[1:])].hex())
+                              if t[0] == 's' else ('r?' if t[0] == 'w' else t)) for t in snap.args[h]]
+                s.expect[(snap.db, snap.post_oid[h])] = (snap.cls[h], toks, wargs)
 
     def txn_failed(self, events, before):
         s = self.s
@@ -1001,7 +1025,7 @@ class Oracle:
                 s.violation('C14:failed-commit-stored', 'the transaction failed but storage %s changed'
                             % DBNAMES[i])
 
-    def loaded(self, dup, out, variant, missing):
+    def loaded(self, dup, out, variant, missing, args_seen=None):
         s = self.s
         if dup:
             s.violation('C14:identity', '%s: %d references or get() calls yielded a second in-memory '
@@ -1018,7 +1042,10 @@ class Oracle:
                 continue
             c, _, rest = val.partition('/')
             b, _, tree = rest.partition('/')
-            wc, wtoks = s.expect[k]
+            wc, wtoks, wargs = s.expect[k]
+            if args_seen is not None and wargs is not None and k in args_seen and args_seen[k] != wargs:
+                s.violation('C14:roundtrip', '%s: object %s was created with constructor arguments %s, stored '
+                            'were %s' % (variant, key, ' '.join(args_seen[k]), ' '.join(wargs)))
             toks = ['r%d:%s' % (k[0], t[3:]) if t.startswith('r-:') else t for t in tree.split(' ')]
             wbroken = int(missing and wc in GONE_IDS)
             if int(c) != wc or int(b) != wbroken or toks != wtoks:
@@ -1161,7 +1188,15 @@ CORPUS = [
 
 def run_case(case):
     s = Session(case)
-    s.run()
+    try:
+        s.run()
+    except InfraError:
+        raise
+    except Exception as e:       # the real code raised where no program of this kind may fail
+        import traceback
+        tb = traceback.extract_tb(e.__traceback__)
+        where = '%s:%d' % (os.path.basename(tb[-1].filename), tb[-1].lineno) if tb else '?'
+        s.violation('C14:crash:%s' % type(e).__name__, 'unexpected %r at %s' % (e, where))
     return s
 
 
